@@ -139,9 +139,9 @@ def gen_nested_window(rng):
 
 def gen(rng, tier):
     r0 = rng.random()
-    if r0 < 0.1:
+    if r0 < 0.14:
         return gen_reduction_entry(rng)
-    if r0 < 0.13:
+    if r0 < 0.17:
         return gen_nested_window(rng)
     ctx = G.Ctx(rng)
     names = sorted(G.OPS)
